@@ -13,16 +13,17 @@ PROPS = {
         level='proof',
         vc=CORE_VC + ['cat.Arrow.__init__[scan]', 'monoidal.Diagram.__init__[scan]', 'monoidal.Diagram.then', 'monoidal.Diagram.tensor',
                       'monoidal.Diagram.__getitem__', 'rewriting.interchange', 'rewriting.interchange[far]', 'rewriting.normalize',
-                      'lemma:canary:then.len'],
+                      'rigid.Cup.__init__', 'rigid.Cap.__init__', 'rigid.cups', 'lemma:canary:then.len'],
         sym=[], rtc='C01',
         level_text='Proof of the representation invariant wf (boxes/offsets scan from dom to cod, each box finds its '
                    'domain at its offset, the layer view agrees) for the constructor scan (establishes wf or raises, '
                    'including the offset range that python slice clamping would hide), the fast-path constructor, '
-                   'Id, then, tensor, slicing/dagger/indexing and adjacent interchange: the real bodies are re-read '
+                   'Id, then, tensor, slicing/dagger/indexing, adjacent and distant interchange, the diagrams yielded by '
+                   'normalize, the cat.Arrow constructor scan, rigid Cup / Cap constructors and nested cups / caps: the real bodies are re-read '
                    'from /repo on every run, verified against functional contracts, and wf(result) is discharged for '
                    'all well-formed inputs of any length and width. Producers not yet under a discharged contract '
-                   '(rewrite traces, normal forms, foliation, flatten, swaps, permutations, cups/caps, transposes, '
-                   'functor images, rigid class) are covered by the bounded stand-in only and not counted as proved.',
+                   '(foliation, flatten, swaps, permutations, transposes, snake removal, rigid functor images of boxes) '
+                   'are covered by the bounded stand-in only and not counted as proved.',
         level_note='Trusted: pyvc + solvers; Upgrade contract (class-preserving upgrade is the identity on the modelled '
                    'fields; subclasses verified by the bounded driver); Box.dagger contract (swaps dom/cod, involutive) '
                    'assumed at call sites; L-ind, L-ext. Bounded part: all diagrams <= 3 (thorough 4) boxes over 8 boxes.',
@@ -191,17 +192,28 @@ PROPS = {
     'C04': dict(
         title='Functors are functorial',
         level='proof',
-        vc=['monoidal.Functor.__call__', 'monoidal.Diagram.then', 'monoidal.Diagram.tensor', 'monoidal.Id.__init__'],
+        vc=['monoidal.Functor.__call__', 'monoidal.Diagram.then', 'monoidal.Diagram.tensor', 'monoidal.Id.__init__',
+            'rigid.Functor.__call__[Cup]', 'rigid.Functor.__call__[Cap]', 'rigid.cups', 'rigid.Cup.__init__',
+            'rigid.Cap.__init__'],
         sym=[], rtc='C04',
         level_text='Proof (type-level clauses, all functors, all diagrams of any length): the real whiskering loop of '
                    'monoidal.Functor.__call__ is verified with a relational loop invariant against the contracts of then / '
                    'tensor / Id, for an arbitrary functor (object map = uninterpreted homomorphism on types incl. empty images, '
                    'box map = arbitrary well-formed diagrams of the right type): no composition in the loop can raise, the '
                    'scanned type is the type after k boxes, the image is well-formed, image.dom = F(dom), image.cod = F(cod). '
-                   'Functoriality as == between images (then, tensor, id, dagger, slices, sums, bubbles), the cat functor and the '
-                   'rigid clauses (adjoints of any winding number, cups, caps, swaps): bounded stand-in.',
-        level_note='Trusted: pyvc + solvers; precondition: images given by the user are well-typed and deterministic. The '
-                   'object-map branch of __call__ (tensor over the objects of a type) and rigid.Functor are not under contract.',
+                   'Rigid clause for cups and caps: the Cup / Cap branches of rigid.Functor.__call__ hand the nested '
+                   'cups / caps constructor an adjoint pair and return a well-formed diagram F(dom) -> F(cod); the real body of '
+                   'rigid.cups (both directions: nested cups and, reversed, nested caps) is verified for types of any length '
+                   'with a loop invariant (after k steps the result is a well-formed diagram left @ right -> left[:n-k] @ '
+                   'right[k:]; each Cup(left[n-k-1], right[k]) is an adjoint pair because adjoints reverse the order; it raises '
+                   'AxiomError exactly when the two types are not adjoint), and the constructors of Cup / Cap establish their '
+                   'class invariant and refuse exactly the non-adjoint or multi-object pairs. '
+                   'Functoriality as == between images (then, tensor, id, dagger, slices, sums, bubbles), the cat functor, the '
+                   'object map of rigid functors (adjoints of any winding number) and swaps: bounded stand-in.',
+        level_note='Trusted: pyvc + solvers; precondition: images given by the user are well-typed and deterministic. Assumed at '
+                   'call sites: the object-map branch of __call__ is a homomorphism on types and, for rigid functors, commutes '
+                   'with .l / .r (bounded by the driver: adjoints of winding number -2..2); monoidal.Box.__init__ / '
+                   'rigid.Box.__init__ store name, dom, cod as given.',
         technique='VC generation from the real AST with a relational loop invariant (z3/cvc5); bounded run-time contracts '
                   'for the equational clauses'),
     'C06': dict(
@@ -274,7 +286,8 @@ PROPS = {
             'biclosed.FX.__init__', 'biclosed.BX.__init__', 'biclosed.Curry.__init__',
             'biclosed.Functor.__call__[Over]', 'biclosed.Functor.__call__[Under]', 'biclosed.Functor.__call__[FA]',
             'biclosed.Functor.__call__[BA]', 'biclosed.Functor.__call__[FC]', 'biclosed.Functor.__call__[BC]',
-            'biclosed.Functor.__call__[FX]', 'biclosed.Functor.__call__[BX]', 'biclosed.Functor.__call__[Curry]'],
+            'biclosed.Functor.__call__[FX]', 'biclosed.Functor.__call__[BX]', 'biclosed.Functor.__call__[Curry]',
+            'rigid.cups', 'rigid.Cup.__init__', 'rigid.Cap.__init__'],
         sym=[], rtc='C18',
         level_text='Proved (VC, all type lengths and nesting depths): the translation clause, end to end for a single rule. '
                    '(1) The class invariants of the rule boxes: the real constructors of biclosed.FA / BA / FC / BC / FX / BX / '
@@ -294,9 +307,9 @@ PROPS = {
                    'on adjacent adjoint types, re-derived independently by scanning), brute_force; CFG.generate over 40 seeds '
                    'x 3 depth limits; biclosed -> rigid: FA/BA over all pairs and FC/BC/FX/BX over triples of 10 slash types '
                    '(nested, composite sides), Curry for every 1 <= n_wires <= len(dom) on both sides, derivations and CCG trees.',
-        level_note='Assumed call-site contracts (exercised by the bounded driver, not proved): rigid cups(l, r) / caps(l, r) '
-                   'return a well-formed diagram l @ r -> Ty() / Ty() -> l @ r when l.r == r or r.r == l and raise AxiomError '
-                   'otherwise; swap(l, r) returns a well-formed l @ r -> r @ l; Upgrade is the identity on the modelled fields; '
+        level_note='Call-site contracts: rigid cups(l, r) / caps(l, r) return a well-formed diagram l @ r -> Ty() / Ty() -> l @ r '
+                   'when l.r == r or r.r == l and raise AxiomError otherwise (proved: rigid.cups, part of this check); assumed, '
+                   'exercised by the bounded driver only: swap(l, r) returns a well-formed l @ r -> r @ l; Upgrade is the identity on the modelled fields; '
                    'monoidal.Box.__init__ stores name, dom, cod as given; the functor is a homomorphism on tensors of types '
                    '(the `len(diagram) > 1` branch, as in C04) and sends a sub-diagram to a well-formed diagram F(dom) -> F(cod) '
                    '(induction hypothesis at the recursive call in the Curry branch). Preconditions: for Curry 1 <= n_wires <= '
